@@ -67,6 +67,18 @@ func Monoid(name string) (empty int, op func(a, b int) int) {
 	panic("unknown monoid " + name)
 }
 
+// Cell is a mutable accumulator: the monoid below hands out a fresh one from Empty() and adds into its left operand,
+// the way a big.Int sum or a map-backed bag is folded. Every accumulator a stage starts from must be its own.
+type Cell struct{ V int }
+
+type cellSum struct{}
+
+func (cellSum) Empty() *Cell { return &Cell{} }
+func (cellSum) Combine(a, b *Cell) *Cell {
+	a.V += b.V
+	return a
+}
+
 func consume[T any](name string, ch <-chan T, stop int) {
 	env.WatchClosed(name, ch)
 	if stop == 0 {
@@ -226,6 +238,22 @@ func Scenario(c Cfg) {
 			close(gate)
 		}()
 		consume("got", wide, c.Stop)
+	case "foldptr":
+		pin := make(chan *Cell, c.InCap)
+		go func() {
+			for x := range in {
+				pin <- &Cell{V: x}
+			}
+			close(pin)
+		}()
+		res := fork.Fold(ctx, c.Par, pin, monoid.Monoid[*Cell](cellSum{}))
+		env.WatchClosed("got", res)
+		go func() {
+			for x := range res {
+				env.Log("got", x.V)
+			}
+			env.Log("got-eof")
+		}()
 	case "fold":
 		empty, op := Monoid(c.Monoid)
 		m := monoid.FromOp(empty, op)
